@@ -66,6 +66,7 @@ type spend = {
   mutable hashes : (string * (bytes * bytes)) list;
   mutable sigok : (bytes * bytes) list;
   mutable isigx : (bytes * bytes) list;
+  mutable sighb : (bytes * bytes) list;   (* invalid as given, valid once the hash-type byte is a standard one / dropped *)
   mutable isign : (bytes * bytes) list;
   mutable tapok : bool;
   mutable ims : string option;
@@ -199,7 +200,7 @@ let check_str (k : check) : string =
   | KSig (k, s) -> "sig:" ^ hex_of_bytes k ^ ":" ^ hex_of_bytes s
   | KPre (kd, h, p) -> kd_name kd ^ ":" ^ hex_of_bytes h ^ ":" ^ hex_of_bytes p
   | KAbs n -> "after:" ^ string_of_int (int_of_n n)
-  | KRel n -> "older:" ^ string_of_int (int_of_n n)
+  | KRel n -> "older:" ^ string_of_int (int_of_n (rel_norm n))   (* as the relative::LockTime it denotes *)
 
 (* the spec's checks for an accepted spend, as strings; None when the oracle side has no trace *)
 let spec_checks (c : case) (s : spend) (e : env) : string list option =
@@ -241,7 +242,7 @@ let constr_str (tap : bool) (x : constr) : string =
   | CsPk (k, s) -> "pk:" ^ hex_of_bytes k ^ ":" ^ hex_of_bytes (norm_sig tap s)
   | CsPkh (h, k, s) -> "pkh:" ^ hex_of_bytes h ^ ":" ^ hex_of_bytes k ^ ":" ^ hex_of_bytes (norm_sig tap s)
   | CsHash (kd, h, p) -> kd_name kd ^ ":" ^ hex_of_bytes h ^ ":" ^ hex_of_bytes p
-  | CsOlder n -> "older:" ^ string_of_int (int_of_n n)
+  | CsOlder n -> "older:" ^ string_of_int (int_of_n (rel_norm n))
   | CsAfter n -> "after:" ^ string_of_int (int_of_n n)
 
 let outcome_str (tap : bool) (o : ioutcome) : string =
@@ -486,12 +487,20 @@ let handle_spend (c : case) (s : spend) =
              | _ -> None)
           | "wsh" | "wpkh" | "tr" | "trkey" -> if s.ssig <> [] then Some [] else None
           | _ -> None in
+        (* the hash-type byte: the specification accepts once the signatures that only fail because of
+           their last byte count as valid -- the interpreter verified against a digest for another
+           hash type than the byte given *)
+        let hb_cause =
+          s.sighb <> [] &&
+          List.exists (fun (seq, txv) -> verify_spend_ext (mk_env c s ~seq ~txv (s.sigok @ s.isigx @ s.sighb)) commit c.spk s.ssig s.wit)
+            [ (s.seq, s.txv); ((if s.seq = 0xffffffff then 0xfffffffe else s.seq), (if s.txv < 2 then 2 else s.txv)) ] in
         let ssig_cause =
           match ssig_fixed with
           | Some fixed when verify_spend_ext (mk_env c s s.sigok) commit c.spk fixed s.wit ->
             Some (if fixed = [] then "native-segwit-scriptsig-nonempty" else "nested-segwit-scriptsig-extra-push")
           | _ -> None in
-        if ssig_cause <> None then (match ssig_cause with Some x -> x | None -> "")
+        if hb_cause then "sig-hashtype-byte-not-committed"
+        else if ssig_cause <> None then (match ssig_cause with Some x -> x | None -> "")
         else if script_is_01 then "script-elem-01-as-op1"
         else if contains "noncanon" s.mk then "noncanonical-script-reencoded"
         else "unexplained:" ^ c.kind ^ ":" ^ k in
@@ -581,7 +590,7 @@ let () =
        | "SP" :: sid :: rest ->
          let g = kv rest in
          sp := Some { sid; base = g "base"; mk = g "mk"; txv = int_of_string (g "txv"); lock = int_of_string (g "lock");
-                      seq = int_of_string (g "seq"); ssig = []; wit = []; hashes = []; sigok = []; isigx = []; isign = [];
+                      seq = int_of_string (g "seq"); ssig = []; wit = []; hashes = []; sigok = []; isigx = []; sighb = []; isign = [];
                       tapok = true; ims = None; imsx = None; verdict = "?"; cons = []; policy = "-" }
        | "SS" :: s :: _ -> ups (fun x -> x.ssig <- bytes_of_hex s)
        | "WI" :: _ :: items -> ups (fun x -> x.wit <- List.map bytes_of_hex items)
@@ -596,6 +605,7 @@ let () =
                          :: ("ripemd160", (i, bytes_of_hex cc)) :: ("hash160", (i, bytes_of_hex d)) :: x.hashes)
        | "SIGOK" :: k :: s :: _ -> ups (fun x -> x.sigok <- pairs_of k s :: x.sigok)
        | "ISIGX" :: k :: s :: _ -> ups (fun x -> x.isigx <- pairs_of k s :: x.isigx)
+       | "SIGHB" :: k :: s :: _ -> ups (fun x -> x.sighb <- pairs_of k s :: x.sighb)
        | "ISIGN" :: k :: s :: _ -> ups (fun x -> x.isign <- pairs_of k s :: x.isign)
        | "TAPOK" :: v :: _ -> ups (fun x -> x.tapok <- (v = "1"))
        | "IMS" :: rest -> ups (fun x -> x.ims <- Some (String.concat " " rest))
